@@ -42,10 +42,18 @@ class Ctx:
         self.scratch = tempfile.mkdtemp(prefix="verif-%s-" % prop, dir=base)
         self.t0 = time.time()
         self.rng = random.Random(seed)
+        self._subs = {}
         self.repo = None
         self.notes = []
         self.tlc_runs = []
         self.keep = bool(os.environ.get("VERIF_KEEP"))
+
+    def sub_rng(self, name):
+        """an independent, reproducible random stream per use: what one generator draws must not depend on how many
+        numbers another one consumed (the order in which TLC dumps a state graph differs from run to run)"""
+        if name not in self._subs:
+            self._subs[name] = random.Random("%s:%s:%s:%s" % (self.seed, self.prop, self.tier, name))
+        return self._subs[name]
 
     # ---------------------------------------------------------------- scratch
     def path(self, *p):
